@@ -201,6 +201,9 @@ func cmdRun(args []string) {
 	sitesFile := fs.String("sites", "", "sites.txt of the instrumented tree")
 	cur := fs.String("current", "", "race lane: file that always holds the scenario being executed")
 	fs.Parse(args)
+	if os.Getenv("SLIMSIM_SELFTEST_FAST") != "" {
+		*maxViol = 1
+	}
 	loadSites(*sitesFile)
 
 	gcOwned := *lane == "sim" && *prop != "C07"
@@ -304,7 +307,12 @@ func handleViolation(scn *Scenario, res *RunResult) ViolationRef {
 			rec = c
 		}
 	}
-	min, v, info := minimise(rec, res.Viol, 45*time.Second, 300)
+	minBudget, minExecs := 45*time.Second, 300
+	if os.Getenv("SLIMSIM_SELFTEST_FAST") != "" {
+		// self tests only ask "is it reported": one violation per worker, short minimisation
+		minBudget, minExecs = 3*time.Second, 30
+	}
+	min, v, info := minimise(rec, res.Viol, minBudget, minExecs)
 	// Confirm in a FRESH OS process: the replay file must fail the same way
 	// there. Candidates in order of preference: minimised; recorded schedule;
 	// original seeded scenario; original scenario after the worker's history
